@@ -36,7 +36,8 @@ type c13Case struct {
 var toolProfiles = []string{"core", "codeblocks", "stateful", "throwrecover", "frontend", "optbait", "names", "errors"}
 
 var spliceTokens = []string{"%{", "%{L}", "//{", "//{L} ", "{", "}", "\"", "'", "`", "[", "]", "\\p{", "\\pL", "\\x", "\\u00", "(", ")", "/", "&", "!", "#", "*", "+", "?", ":", "=", "<-", "←", ";", "\n", "//", "/*", "*/", "i",
-	"A", "Undefined", "func", "x:", "type:", "\x00", "\xff", "é", "\\400", "^", "-", "."}
+	"A", "Undefined", "func", "x:", "type:", "\x00", "\xff", "é", "\\400", "^", "-", ".",
+	"\\p{L]", "[\\p{Lu]]", "\\p{", "[\\pL", "\\u12", "\\U0011", "%{L", "//{L", "{ \"", "'\\", "`"}
 
 func mutateText(t *rapid.T, b []byte) []byte {
 	n := 1 + gspec.U(t, 3, "nmut")
@@ -82,7 +83,7 @@ func drawGrammarText(t *rapid.T) ([]byte, string, *gspec.Grammar) {
 		}
 		return b, "bytes", nil
 	case k < 14:
-		return []byte(gspec.Pick(t, []string{"", "\n", "A", "A =", "A = ", "{", "{}", "{}\nA='a'", "A = 'a'", "A = B", "A = A", "A = 'a' A = 'b'", "A = %{x}", "A = 'a' //{x} 'b'", "=", "A 'x' = .", "A = [", "A = \"", "A = 'ab'", "A = []", "A = [^]", "A = ''"}, "tiny")), "tiny", nil
+		return []byte(gspec.Pick(t, []string{"", "\n", "A", "A =", "A = ", "{", "{}", "{}\nA='a'", "A = 'a'", "A = B", "A = A", "A = 'a' A = 'b'", "A = %{x}", "A = 'a' //{x} 'b'", "=", "A 'x' = .", "A = [", "A = \"", "A = 'ab'", "A = []", "A = [^]", "A = ''", "A = [\\p{L]]", "A = [\\p{Greek]x]", "A = \"\\400\"", "A = 'a' {", "A = %{", "A = 'a' //{"}, "tiny")), "tiny", nil
 	}
 	prof := gspec.Pick(t, toolProfiles, "profile")
 	g := gspec.GrammarGen(gspec.Profile(prof)).Draw(t, "grammar")
@@ -317,8 +318,15 @@ func TestC13(t *testing.T) {
 			continue
 		}
 		sum.Replayed = append(sum.Replayed, f)
-		if k, _, _, _, to, _, _ := checkC13(dir, &rf.Case); k != "" || to {
+		k, _, _, _, to, _, _ := checkC13(dir, &rf.Case)
+		if k != "" || to {
 			sum.ReplayFails = append(sum.ReplayFails, f)
+		}
+		if to {
+			// the abandoned main() goroutine keeps running: end this process, the driver
+			// starts another one for the remaining files
+			sum.write()
+			os.Exit(0)
 		}
 	}
 	if os.Getenv("VTOOL_REPLAY_ONLY") != "" {
